@@ -150,8 +150,8 @@ func (r *Router) match(method, path string) (rt *Route, ps Params) {
 		return route, nil
 	}
 
-	// find in cached routes
-	if r.enableCaching {
+	// find in cached routes. Notice: the cache is created when the first route is added.
+	if r.enableCaching && r.cachedRoutes != nil {
 		route, ok := r.cachedRoutes.Get(method + path)
 		if ok {
 			return route, route.params
